@@ -7,7 +7,8 @@
    Every flight travels in one datagram (one classical key-share group, default MTU).  Datagram kinds:
      F1  ClientHello            F2  HelloRetryRequest       F3  ClientHello with cookie
      F4  ServerHello .. Finished (one datagram)              F5  client Finished
-     As  ACK record of the server    Ac  ACK record of the client
+     As  ACK record of the server
+     Ac4 ACK record of the client that acknowledges only flight-4 records    AcT one that (also) acknowledges the ticket
      T   NewSessionTicket (first post-handshake flight of the server)
    Without hello verification (HRR = FALSE) F1 is answered by F4 directly.
 
@@ -30,8 +31,8 @@ CONSTANTS HRR,                \* server answers the first ClientHello with Hello
 
 E == {"c", "s"}
 Peer(e) == IF e = "c" THEN "s" ELSE "c"
-Kinds == {"F1", "F2", "F3", "F4", "F5", "As", "Ac", "T"}
-Sender(k) == IF k \in {"F1", "F3", "F5", "Ac"} THEN "c" ELSE "s"
+Kinds == {"F1", "F2", "F3", "F4", "F5", "As", "Ac4", "AcT", "T"}
+Sender(k) == IF k \in {"F1", "F3", "F5", "Ac4", "AcT"} THEN "c" ELSE "s"
 Cap == 2
 
 VARIABLES st,      \* "Waiting" | "Finished"
@@ -41,13 +42,15 @@ VARIABLES st,      \* "Waiting" | "Finished"
           got,     \* datagram kinds of the peer this endpoint has processed
           est,     \* HandshakeContext returned nil
           tick,    \* server: NewSessionTicket flight "none" | "pending" | "acked"
+          owe,     \* client: protected handshake records received and not yet acknowledged ({"F4","T"} subset): every
+                   \* acknowledgement the client sends flushes all of them (conn.pendingACKs)
           net,     \* kind -> [n, d, s] as in Handshake12
           drops, dups, touts,
           emits,   \* sequence of kinds emitted by the last action
           cause,   \* "recv" | "timer" | "start" | "none"
           hist
-vars == <<st, fl, retx, bk, got, est, tick, net, drops, dups, touts, emits, cause, hist>>
-viewv == <<st, fl, retx, bk, got, est, tick, net, drops, dups, touts, emits, cause>>
+vars == <<st, fl, retx, bk, got, est, tick, owe, net, drops, dups, touts, emits, cause, hist>>
+viewv == <<st, fl, retx, bk, got, est, tick, owe, net, drops, dups, touts, emits, cause>>
 
 PutK(n, k) == [n EXCEPT ![k].n = IF n[k].n + n[k].d < Cap THEN @ + 1 ELSE @]
 RECURSIVE PutAll(_, _)
@@ -56,16 +59,19 @@ Take(n, k, c) == IF c = "n" THEN [n EXCEPT ![k].n = @ - 1] ELSE [n EXCEPT ![k].d
 Has(k, c) == IF c = "n" THEN net[k].n > 0 ELSE net[k].d > 0
 Bump(b) == IF b < BackoffCap THEN b + 1 ELSE b
 
-\* reaction of endpoint e to datagram kind k: [fl, st, retx, bk, est, tick, out]
+\* the acknowledgement the client would send now (nothing when it owes none)
+AckOf(o) == IF o = {} THEN <<>> ELSE IF "T" \in o THEN <<"AcT">> ELSE <<"Ac4">>
+
+\* reaction of endpoint e to datagram kind k: [fl, st, retx, bk, est, tick, owe, out]
 React(e, k) ==
   LET new == k \notin got[e]
       bk0 == IF new THEN 0 ELSE bk[e]          \* interval reset on non-retransmitted input
-      same == [fl |-> fl[e], st |-> st[e], retx |-> retx[e], bk |-> bk0, est |-> est[e], tick |-> tick, out |-> <<>>]
+      same == [fl |-> fl[e], st |-> st[e], retx |-> retx[e], bk |-> bk0, est |-> est[e], tick |-> tick, owe |-> owe, out |-> <<>>]
   IN
   IF e = "s" THEN
     CASE st["s"] = "Finished" ->
-           \* post-handshake machine: acknowledge retransmitted handshake records; an ACK completes the ticket flight
-           IF k = "Ac" THEN [same EXCEPT !.tick = IF tick = "pending" THEN "acked" ELSE tick]
+           \* post-handshake machine: acknowledge retransmitted handshake records; the ticket flight ends when it is acknowledged
+           IF k = "AcT" THEN [same EXCEPT !.tick = IF tick = "pending" THEN "acked" ELSE tick]
            ELSE IF k = "F5" THEN [same EXCEPT !.out = <<"As">>]
            ELSE same
       [] fl["s"] = "F0" ->
@@ -78,28 +84,33 @@ React(e, k) ==
            ELSE same
       [] fl["s"] = "F4" ->
            IF k = "F5" THEN [same EXCEPT !.st = "Finished", !.est = TRUE, !.retx = FALSE, !.tick = "pending", !.out = <<"As", "T">>]
-           ELSE IF k \in {"F3", "F1"} /\ ~new /\ (k = "F3" \/ ~HRR)
+           ELSE IF k \in {"F3", "F1"} /\ ~new
                 THEN (IF retx["s"] THEN [same EXCEPT !.bk = Bump(bk0), !.out = <<"F4">>] ELSE same)
-           ELSE IF k = "Ac" THEN [same EXCEPT !.retx = FALSE]       \* flight 4 acknowledged: stop retransmitting
+           \* the client's acknowledgements travel under its application keys (it switched when it sent Finished):
+           \* a server still in flight 4 cannot read them yet - they are queued and wake nothing
+           ELSE IF k \in {"Ac4", "AcT"} THEN [same EXCEPT !.bk = bk[e]]
            ELSE same
       [] OTHER -> same
   ELSE
     CASE st["c"] = "Finished" ->
-           IF k = "T" THEN [same EXCEPT !.out = <<"Ac">>]
-           ELSE IF k = "F4" THEN [same EXCEPT !.out = <<"Ac">>]
+           IF k = "T" THEN [same EXCEPT !.owe = {}, !.out = <<"AcT">>]
+           ELSE IF k = "F4" THEN [same EXCEPT !.owe = {}, !.out = AckOf(owe \cup {"F4"})]
+           ELSE IF k = "F2" THEN [same EXCEPT !.owe = {}, !.out = AckOf(owe)]
            ELSE same
       [] fl["c"] = "F1" ->
            IF k = "F2" THEN [same EXCEPT !.fl = "F3", !.retx = TRUE, !.out = <<"F3">>]
-           ELSE IF k = "F4" /\ ~HRR THEN [same EXCEPT !.fl = "F5", !.retx = TRUE, !.out = <<"F5">>]
+           ELSE IF k = "F4" /\ ~HRR THEN [same EXCEPT !.fl = "F5", !.retx = TRUE, !.owe = {"F4"}, !.out = <<"F5">>]
            ELSE same
       [] fl["c"] = "F3" ->
-           IF k = "F4" THEN [same EXCEPT !.fl = "F5", !.retx = TRUE, !.out = <<"F5">>]
+           IF k = "F4" THEN [same EXCEPT !.fl = "F5", !.retx = TRUE, !.owe = {"F4"}, !.out = <<"F5">>]
            ELSE IF k = "F2" /\ ~new THEN [same EXCEPT !.bk = Bump(bk0), !.out = <<"F3">>]
            ELSE same
       [] fl["c"] = "F5" ->
            IF k = "As" THEN [same EXCEPT !.st = "Finished", !.est = TRUE, !.retx = FALSE]
-           ELSE IF k = "T" THEN [same EXCEPT !.st = "Finished", !.est = TRUE, !.retx = FALSE]   \* implicit acknowledgement
-           ELSE IF k = "F4" /\ ~new THEN [same EXCEPT !.bk = Bump(bk0), !.out = <<"Ac", "F5">>]
+           ELSE IF k = "T" THEN [same EXCEPT !.st = "Finished", !.est = TRUE, !.retx = FALSE, !.owe = owe \cup {"T"}]   \* implicit acknowledgement
+           \* a duplicate of the peer's previous flight: acknowledge what is owed, send the final flight again
+           ELSE IF k = "F4" /\ ~new THEN [same EXCEPT !.bk = Bump(bk0), !.owe = {}, !.out = AckOf(owe \cup {"F4"}) \o <<"F5">>]
+           ELSE IF k = "F2" /\ ~new THEN [same EXCEPT !.bk = Bump(bk0), !.owe = {}, !.out = AckOf(owe) \o <<"F5">>]
            ELSE same
       [] OTHER -> same
 
@@ -108,7 +119,7 @@ Deliver(k, c) ==
   /\ Has(k, c)
   /\ got' = [got EXCEPT ![e] = @ \cup {k}]
   /\ fl' = [fl EXCEPT ![e] = r.fl] /\ st' = [st EXCEPT ![e] = r.st] /\ retx' = [retx EXCEPT ![e] = r.retx]
-  /\ bk' = [bk EXCEPT ![e] = r.bk] /\ est' = [est EXCEPT ![e] = r.est] /\ tick' = r.tick
+  /\ bk' = [bk EXCEPT ![e] = r.bk] /\ est' = [est EXCEPT ![e] = r.est] /\ tick' = r.tick /\ owe' = r.owe
   /\ net' = PutAll(Take(net, k, c), r.out)
   /\ emits' = r.out /\ cause' = IF r.out = <<>> THEN "none" ELSE "recv"
   /\ UNCHANGED <<drops, dups, touts>>
@@ -117,7 +128,7 @@ DeliverStale(k) ==
   /\ net[k].s > 0
   /\ net' = [net EXCEPT ![k].s = @ - 1]
   /\ emits' = <<>> /\ cause' = "none"
-  /\ UNCHANGED <<st, fl, retx, bk, got, est, tick, drops, dups, touts>>
+  /\ UNCHANGED <<st, fl, retx, bk, got, est, tick, owe, drops, dups, touts>>
 
 Drop(k, c) ==
   /\ drops < MaxDrop
@@ -125,13 +136,13 @@ Drop(k, c) ==
        [] c = "d" -> net[k].d > 0 /\ net' = [net EXCEPT ![k].d = @ - 1, ![k].n = @ + 1]
        [] c = "s" -> net[k].s > 0 /\ net' = [net EXCEPT ![k].s = @ - 1]
   /\ drops' = drops + 1 /\ emits' = <<>> /\ cause' = "none"
-  /\ UNCHANGED <<st, fl, retx, bk, got, est, tick, dups, touts>>
+  /\ UNCHANGED <<st, fl, retx, bk, got, est, tick, owe, dups, touts>>
 
 Dup(k) ==
   /\ net[k].n > 0 /\ dups < MaxDup
   /\ net' = [net EXCEPT ![k].n = @ - 1, ![k].d = @ + 1] /\ dups' = dups + 1
   /\ emits' = <<>> /\ cause' = "none"
-  /\ UNCHANGED <<st, fl, retx, bk, got, est, tick, drops, touts>>
+  /\ UNCHANGED <<st, fl, retx, bk, got, est, tick, owe, drops, touts>>
 
 \* the retransmission timer of e fires: the handshake timer while waiting, the post-handshake timer of an
 \* established server with an unacknowledged ticket flight
@@ -142,16 +153,18 @@ Timeout(e) ==
      THEN IF retx[e] /\ fl[e] # "F0"
           THEN /\ net' = PutK(net, fl[e]) /\ emits' = <<fl[e]>> /\ cause' = "timer"
                /\ bk' = [bk EXCEPT ![e] = Bump(@)]
+          ELSE IF retx[e]       \* server before any ClientHello: the interval doubles, nothing to send
+          THEN /\ UNCHANGED net /\ bk' = [bk EXCEPT ![e] = Bump(@)] /\ emits' = <<>> /\ cause' = "none"
           ELSE /\ UNCHANGED <<net, bk>> /\ emits' = <<>> /\ cause' = "none"
      ELSE IF e = "s" /\ tick = "pending"
           THEN /\ net' = PutK(net, "T") /\ emits' = <<"T">> /\ cause' = "timer" /\ UNCHANGED bk
           ELSE /\ UNCHANGED <<net, bk>> /\ emits' = <<>> /\ cause' = "none"
-  /\ UNCHANGED <<st, fl, retx, got, est, tick, drops, dups>>
+  /\ UNCHANGED <<st, fl, retx, got, est, tick, owe, drops, dups>>
 
 Init ==
   /\ st = [e \in E |-> "Waiting"] /\ fl = [e \in E |-> IF e = "c" THEN "F1" ELSE "F0"]
   /\ retx = [e \in E |-> TRUE] /\ bk = [e \in E |-> 0] /\ got = [e \in E |-> {}] /\ est = [e \in E |-> FALSE]
-  /\ tick = "none"
+  /\ tick = "none" /\ owe = {}
   /\ net = [k \in Kinds |-> [n |-> IF k = "F1" THEN 1 ELSE 0, d |-> 0, s |-> 0]]
   /\ drops = 0 /\ dups = 0 /\ touts = 0 /\ emits = <<"F1">> /\ cause = "start" /\ hist = <<>>
 
@@ -181,10 +194,10 @@ NoTimerHRR == [][(\E i \in 1..Len(emits') : emits'[i] = "F2") => cause' = "recv"
 (* C17: a timer event re-sends exactly the current unacknowledged flight (or the ticket flight) and doubles the interval *)
 TimerLaw13 ==
   [][\A e \in E : (cause' = "timer" /\ Timeout(e)) =>
-        \/ (st[e] = "Waiting" /\ emits' = <<fl[e]>> /\ retx[e] /\ bk'[e] = Bump(bk[e]))
+        \/ (st[e] = "Waiting" /\ emits' = <<fl[e]>> /\ retx[e] /\ fl[e] # "F0" /\ bk'[e] = Bump(bk[e]))
         \/ (st[e] = "Finished" /\ e = "s" /\ emits' = <<"T">>)]_vars
 (* acknowledgements are never sent by a timer *)
-AckNeverOnTimer == [][(\E i \in 1..Len(emits') : emits'[i] \in {"As", "Ac"}) => cause' = "recv"]_vars
+AckNeverOnTimer == [][(\E i \in 1..Len(emits') : emits'[i] \in {"As", "Ac4", "AcT"}) => cause' = "recv"]_vars
 (* after completing, the handshake flights are re-sent only in response to the peer *)
 FinalFlightOnlyOnPeerRetx13 ==
   [][\A e \in E : (est[e] /\ cause' = "timer" /\ Timeout(e)) => (e = "s" /\ emits' = <<"T">>)]_vars
